@@ -3,3 +3,4 @@ import AeicProofs.Properties.C07
 import AeicProofs.Properties.C08
 import AeicProofs.Properties.C09
 import AeicProofs.Properties.C10
+import AeicProofs.Properties.C20
